@@ -91,6 +91,7 @@ package transport
 //@   nopanic
 //@   pure
 //@ trusted (error).Error() (s)
+//@   nopanic
 //@   pure
 //@ trusted github.com/99designs/gqlgen/graphql/errcode.GetErrorKind(errs) (k)
 //@   nopanic
@@ -179,3 +180,118 @@ package transport
 //@   ensures calls(DispatchOperation) >= 1 ==> calls(WriteHeader) == 0
 //@   ensures calls(DispatchOperation) <= 1
 //@   replay transportNullBody.go.tmpl
+
+// ---------------------------------------------------------------- multipart/form-data uploads
+//@ trusted (MultipartForm).maxUploadSize() (n)
+//@   nopanic
+//@   pure
+//@ trusted (MultipartForm).maxMemory() (n)
+//@   nopanic
+//@   pure
+//@ trusted net/http.MaxBytesReader(w, r, n) (rc)
+//@   ensures rc != nil
+//@   nopanic
+//@   pure
+//@ trusted (io.Closer).Close() (err)
+//@ trusted (*net/http.Request).MultipartReader() (mr, err)
+//@   ensures err == nil ==> mr != nil
+//@   nopanic
+//@ trusted (*mime/multipart.Reader).NextPart() (p, err)
+//@   ensures err == nil ==> p != nil
+//@   nopanic
+//@ trusted (*mime/multipart.Part).FormName() (s)
+//@   nopanic
+//@   pure
+//@ trusted (*mime/multipart.Part).FileName() (s)
+//@   nopanic
+//@   pure
+//@ trusted (net/textproto.MIMEHeader).Get(key) (s)
+//@   nopanic
+//@   pure
+//@ trusted encoding/json.NewDecoder(r) (d)
+//@   ensures d != nil
+//@   nopanic
+//@   pure
+//@ trusted (*encoding/json.Decoder).Decode(v) (err)
+//@   nopanic
+//@ trusted os.CreateTemp(dir, pattern) (f, err)
+//@   ensures err == nil ==> f != nil
+//@   nopanic
+//@ trusted os.TempDir() (s)
+//@   nopanic
+//@   pure
+//@ trusted os.Remove(name) (err)
+//@   nopanic
+//@ trusted os.Open(name) (f, err)
+//@   ensures err == nil ==> f != nil
+//@   nopanic
+//@ trusted (*os.File).Name() (s)
+//@   nopanic
+//@   pure
+//@ trusted (*os.File).Close() (err)
+//@   nopanic
+//@ trusted io.Copy(dst, src) (n, err)
+//@   nopanic
+//@ trusted (*github.com/99designs/gqlgen/graphql.RawParams).AddUpload(upload, key, path) (err)
+//@   nopanic
+
+// C10: the request body is read only through the size-limited reader (the limit is installed before the
+// multipart reader captures r.Body); every temporary file that was created has a deferred removal registered
+// before anything else can fail (ghost counters created/scheduled); gate as for the other transports.
+//@ func (MultipartForm).Do [C10,C03,C09]
+//@   requires r != nil && w != nil && exec != nil
+//@   safe
+//@   ghost limited = false
+//@   ghost created = 0
+//@   ghost scheduled = 0
+//@   at `http.MaxBytesReader(w, r.Body, f.maxUploadSize())` ghost limited = true
+//@   at `r.MultipartReader()` requires limited
+//@   at `os.CreateTemp(os.TempDir(), "gqlgen-")` requires created == scheduled
+//@   at `os.CreateTemp(os.TempDir(), "gqlgen-")` ghost created = created + ite(callres1 == nil, 1, 0)
+//@   at `defer os.Remove(tmpName)` requires created == scheduled + 1
+//@   at `defer os.Remove(tmpName)` ghost scheduled = scheduled + 1
+//@   at `io.Copy(tmpFile, part)` requires created == scheduled
+//@   loop 1: invariant created == scheduled && limited
+//@   callsite DispatchOperation: requires gerr == nil
+//@   ensures created == scheduled
+//@   ensures calls(DispatchOperation) <= 1
+//@   ensures calls(CreateOperationContext) == 0 ==> calls(DispatchOperation) == 0
+
+// ---------------------------------------------------------------- websocket: start/subscribe message
+// Assumed not to panic: encoding an error list / a control message and writing it to the socket (write errors
+// are handled by closing the connection), the user's recover function, and context cancellation.
+//@ trusted (*wsConnection).sendError(id, errors)
+//@   nopanic
+//@ trusted (*wsConnection).sendResponse(id, response)
+//@ trusted (*wsConnection).complete(id)
+//@   nopanic
+//@ trusted (*wsConnection).write(msg)
+//@   nopanic
+//@ trusted withInitPayload(ctx, p) (c)
+//@   pure
+//@ trusted withSubscriptionErrorContext(ctx) (c)
+//@   nopanic
+//@   pure
+//@ trusted getSubscriptionError(ctx) (errs)
+//@   nopanic
+//@   pure
+//@ trusted context.WithCancel(ctx) (c, cancel)
+//@   nopanic
+//@   pure
+//@ trusted dyn:cancel()
+//@   nopanic
+//@ trusted (*github.com/99designs/gqlgen/graphql.OperationContext).Recover(ctx, err) (e)
+//@   nopanic
+//@ trusted errors.As(err, target) (ok)
+//@   nopanic
+//@   pure
+// C10: any start payload (including JSON null) - no nil dereference; C03: the operation is dispatched (on the
+// goroutine) only when CreateOperationContext returned no error; C04: the subscription goroutine never lets a
+// panic escape (spawn rule).
+//@ func (*wsConnection).subscribe [C10,C03,C04,C11]
+//@   requires c != nil && msg != nil && c.exec != nil && c.active != nil
+//@   stable wsConnection.active wsConnection.exec
+//@   safe
+//@   gosafe
+//@   at `c.exec.CreateOperationContext(ctx, params)` requires params != nil
+//@   callsite DispatchOperation: requires err == nil
